@@ -173,9 +173,11 @@ def job_elastic(cfg):
     el = elastic_law(law)
     C6 = exactC(el.C)
     scale = Fraction(float(np.abs(el.C).max()))
-    eps = sym_array("eps", (n,), -1, 1)
+    unit = Fraction(1, 2 ** 40) if cfg.get("tiny") else Fraction(1)  # 'tiny': strains below 2^-40 ~ 9e-13 - a linear law is linear at every magnitude
+    eps = sym_array("eps", (n,), -unit, unit)
     res.symbols = n
-    label = f"no internal variables {law} {mode}"
+    label = f"no internal variables {law} {mode}" + (" (strains below 2^-40)" if cfg.get("tiny") else "")
+    uscale = scale * unit
     res.functions |= {"Behavior.__init__", "Behavior.Integrate", "Behavior.Compute_strain_6d", "Behavior.__Plane_stress_strain", "Behavior.__Integrate_3d", "Behavior.Compute_sigma",
                       "Behavior.Compute_elastic_strain", "Behavior.__Condense", "Behavior.Compute_stress"}
     def replay(env):
@@ -184,11 +186,11 @@ def job_elastic(cfg):
         s, Ca, zz, cv = bb.Integrate(fe(ef))
         s, Ca = np.asarray(s)[0, 0], np.asarray(Ca)[0, 0]
         Cr = np.asarray(el.C if dim == 3 else elastic_law_2d(law, ps).C, dtype=float)
-        errs = {"stress": float(np.abs(s - Cr @ ef).max() / float(scale)), "tangent": float(np.abs(Ca - Cr).max() / float(scale)), "state_size": int(np.asarray(zz).shape[-1]),
-                "compute_stress": float(np.abs(np.asarray(bb.Compute_stress(fe(ef)))[0, 0] - Cr @ ef).max() / float(scale))}
+        errs = {"stress": float(np.abs(s - Cr @ ef).max() / float(uscale)), "tangent": float(np.abs(Ca - Cr).max() / float(scale)), "state_size": int(np.asarray(zz).shape[-1]),
+                "compute_stress": float(np.abs(np.asarray(bb.Compute_stress(fe(ef)))[0, 0] - Cr @ ef).max() / float(uscale))}
         if ps:
             e6 = np.asarray(bb.Compute_strain_6d(fe(ef)))[0, 0]
-            errs["sig_zz"] = float(abs((np.asarray(el.C) @ e6)[ZZ]) / float(scale))
+            errs["sig_zz"] = float(abs((np.asarray(el.C) @ e6)[ZZ]) / float(uscale))
         bad = max(errs["stress"], errs["tangent"], errs["compute_stress"], errs.get("sig_zz", 0)) > 5e-10 or errs["state_size"] != 0
         return bad, {"eps": ef.tolist(), **errs}
 
@@ -207,18 +209,18 @@ def job_elastic(cfg):
     Cref = exactC(el.C if dim == 3 else elastic_law_2d(law, ps).C)
 
 
-    record_entries(res, f"{label}: stress = C : eps (the closed-form law of Models.Elastic)", sig, matvec(Cref, eps), pcs, replay, TOL, scale=scale,
+    record_entries(res, f"{label}: stress = C : eps (the closed-form law of Models.Elastic)", sig, matvec(Cref, eps), pcs, replay, TOL, scale=uscale,
                    sample={"obligation": "for all strains in [-1,1]^n: |Integrate(eps).sigma - C_ref eps| <= 1e-9 |C|", "config": cfg})
     record_entries(res, f"{label}: tangent = C", Calg, Cref, pcs, replay, TOL, scale=scale)
-    record_entries(res, f"{label}: Compute_stress = Integrate", sig2, sig, pcs, replay, TOL, scale=scale)
+    record_entries(res, f"{label}: Compute_stress = Integrate", sig2, sig, pcs, replay, TOL, scale=uscale)
     ok = np.asarray(z).shape[-1] == 0 and bool(np.asarray(conv).all())
     res.record(f"{label}: empty state, converged", Outcome("held", how="ground-exact") if ok else Outcome("cex", env=dict(c.shadow), how="structure"), replay)
     if ps:
         with facade.symbolic():
             e6 = np.asarray(b.Compute_strain_6d(fe(eps.copy())))[0, 0]
-        record_entries(res, f"{label}: no out-of-plane stress", [matvec(C6, e6)[ZZ]], [0], c.pc_since(mark), replay, TOL, scale=scale)
+        record_entries(res, f"{label}: no out-of-plane stress", [matvec(C6, e6)[ZZ]], [0], c.pc_since(mark), replay, TOL, scale=uscale)
         record_entries(res, f"{label}: in-plane and out-of-plane shear strains kept", e6[[0, 1, 5, 3, 4]], list(eps) + [0, 0], c.pc_since(mark), replay, 0)
-    o = prove_abs_le(as_sym(sig[0]) - 2 * as_sym(matvec(Cref, eps)[0]), TOL * scale, pcs, "twin")
+    o = prove_abs_le(as_sym(sig[0]) - 2 * as_sym(matvec(Cref, eps)[0]), TOL * uscale, pcs, "twin")
     res.twin(f"{label} twin", o.status == "cex")
     res.stubs |= facade.USED_STUBS
     return res
@@ -1169,6 +1171,8 @@ def main():
     for law in (["iso", "ti"] if tier == "quick" else ["iso", "iso2", "ti"]):
         for mode in modes:
             configs.append({"kind": "elastic", "law": law, "mode": mode})
+            if law == "iso" and mode != "pstrain":
+                configs.append({"kind": "elastic", "law": law, "mode": mode, "tiny": True})
     for mode in modes:
         configs.append({"kind": "maxwell", "law": "iso", "mode": mode, "branches": 1})
         configs.append({"kind": "maxwell", "law": "ti", "mode": mode, "branches": 2, "symbolic_branch": False})
